@@ -65,9 +65,9 @@ LEVEL = {
                "exceptional continuation closes every iterable parameter still owed a close; (R18.2) user locks are "
                "held only through async with; (R18.3) no cache or cached-property store lies on an exceptional "
                "successor; (R18.4) the ExitStack unwind catches BaseException per callback and continues; (R18.5) "
-               "no handler can swallow/replace a thrown-in BaseException and cleanup never masks it.",
-    "not_decided": "that user aclose()/lock __aexit__ really release (user code); handles (chain/tee/groupby) "
-                   "release on the owner's aclose as decided by C04 R04.3.",
+               "no handler can swallow/replace a thrown-in BaseException and cleanup never masks it; (R18.6) the "
+               "aclose() of every owning handle (chain, tee, groupby) closes its sources on every path.",
+    "not_decided": "that user aclose()/lock __aexit__ really release (user code).",
     "technique": "static analysis: exceptional-successor coverage on a CFG with exception edges",
 }
 
@@ -85,6 +85,8 @@ def run(ctx) -> None:
     ctx.rule("R18.3", "no cache / cached-property store on the exceptional successor of the awaited user call (R11.4, R12.2)")
     ctx.rule("R18.4", "ExitStack unwind: BaseException caught per callback, unwinding continues, exception re-raised (R14.2)")
     ctx.rule("R18.5", "no handler can swallow or replace a thrown-in BaseException; cleanup never masks (R06.1-R06.3)")
+    ctx.rule("R18.6", "handles (chain, tee, groupby, borrowed views): the owner's aclose() closes every owned source on "
+                      "every path, whatever state the cancelled iteration left behind (R04.3, R04.4)")
     ctx.assume("cancellation is delivered as an exception thrown in at a suspension point")
     for unit, pname, src in ownership.iterable_params(ctx):
         ctx.count("iterable_params")
@@ -95,6 +97,7 @@ def run(ctx) -> None:
     r18_3(ctx)
     r18_4(ctx)
     r18_5(ctx)
+    r18_6(ctx)
 
 
 def r18_2(ctx) -> None:
@@ -145,6 +148,13 @@ def r18_4(ctx) -> None:
     from . import c14
     end = c14.r14_1(_Relabel(ctx, "R18.4"))
     c14.r14_2(_Relabel(ctx, "R18.4"), end)
+
+
+def r18_6(ctx) -> None:
+    from . import c04
+    sub = _Relabel(ctx, "R18.6")
+    c04.r04_3(sub)
+    c04.r04_4(sub)
 
 
 def r18_5(ctx) -> None:
